@@ -9,7 +9,7 @@ cp -r /repo/loky "$SCR/loky"
 ( cd "$SCR" && patch -p1 -s < "$PATCH" ) || { echo "ERROR patch does not apply: $PATCH"; exit 3; }
 find "$SCR" -name __pycache__ -prune -exec rm -rf {} + 2>/dev/null
 OUT="$SCR/out.txt"
-LOKY_REPO="$SCR" VERIF_OUT_DIR="$SCR/out" "$HERE/check" "$PROP" --tier "$TIER" > "$OUT" 2>&1
+VERIF_SHRINK_CAP="${VERIF_SHRINK_CAP:-4}" LOKY_REPO="$SCR" VERIF_OUT_DIR="$SCR/out" "$HERE/check" "$PROP" --tier "$TIER" > "$OUT" 2>&1
 RC=$?
 case $RC in
   1) echo "CAUGHT $PROP $(basename "$PATCH"): $(grep -m1 'kind=' "$OUT")";;
